@@ -344,7 +344,7 @@ def gen_C06(rng, ci, tier):
                           4: (f[1], L), 5: (0, L), 6: (f[1] + 1, f[2] + 1)}[f[0]]
                 del cur[lo:hi]
             elif k < 0.9:
-                t = rng.choice([rng.randint(0, L), L, L + 3, 0])
+                t = rng.choice([rng.randint(0, L), L, max(L - 1, 0), 0])
                 s.add("truncate", tgt, t); del cur[t:]
             elif k < 0.93:
                 s.add("clear", tgt); del cur[:]
